@@ -61,7 +61,7 @@ func seriesOfProg(scrape, prog string) []string {
 // in the middle of handing a line out when a reload arrives.  Whatever happens to b, a processes
 // every line exactly once.  (A dispatcher that sends on a channel a reload has closed takes the
 // process down; the engine reports that as this case's crash.)
-func c06Conc(n, reloads int) (bool, string) {
+func c06Conc(n, reloads int, checkB bool) (bool, string) {
 	dir, err := os.MkdirTemp("", "c06conc")
 	if err != nil {
 		return true, "skip"
@@ -116,7 +116,7 @@ func c06Conc(n, reloads int) (bool, string) {
 		return v
 	}
 	deadline := time.Now().Add(20 * time.Second)
-	for (count("la") < int64(n) || count("lc") < int64(n)) && time.Now().Before(deadline) {
+	for (count("la") < int64(n) || count("lc") < int64(n) || (checkB && count("lb") < int64(n))) && time.Now().Before(deadline) {
 		time.Sleep(time.Millisecond)
 	}
 	time.Sleep(5 * time.Millisecond)
@@ -127,6 +127,9 @@ func c06Conc(n, reloads int) (bool, string) {
 	select {
 	case <-done:
 	case <-time.After(3 * time.Second):
+	}
+	if lb := count("lb"); checkB && lb != int64(n) {
+		return false, fmt.Sprintf("%d lines sent while program b was reloaded: its versions together counted %d (each line goes to exactly one of them)", n, lb)
 	}
 	if la != int64(n) || lc != int64(n) {
 		return false, fmt.Sprintf("%d lines sent while program b was reloaded: program a counted %d, program c %d", n, la, lc)
@@ -225,7 +228,7 @@ func c06Run(r *runCtx, id string, f []string) {
 	if f[0] == "conc" {
 		n, _ := strconv.Atoi(f[1])
 		k, _ := strconv.Atoi(f[2])
-		ok, note := c06Conc(n, k)
+		ok, note := c06Conc(n, k, false)
 		r.stat("conc")
 		r.obs(id, "-")
 		if !ok {
